@@ -503,3 +503,15 @@ V("gd-coords-minus-shift-plus", ["C02"], GD, "fire", (DEFP, "        if mt.restr
 V("gd-benign-commute", ["C05"], GD, "benign", (DEFP, "        body = [L.AssignAdd(access, dof_access * FE)]", "        body = [L.AssignAdd(access, FE * dof_access)]"))
 V("gd-assign-not-accumulate", ["C05"], GD, "fire", (DEFP, "        body = [L.AssignAdd(access, dof_access * FE)]", "        body = [L.Assign(access, dof_access * FE)]"))
 V("gd-init-one", ["C05"], GD, "fire", (DEFP, "        declaration: list[L.Declaration] = [L.VariableDecl(access, 0.0)]", "        declaration: list[L.Declaration] = [L.VariableDecl(access, 1.0)]"))
+
+# ---- GEN-EXPR ----------------------------------------------------------------------------------------
+GE = ["GEN-EXPR"]
+EGP = "ffcx/codegeneration/expression_generator.py"
+V("ge-component-point-swapped", ["C04"], GE, "fire", (EGP, "                indices = [A_indices[0], fi_ci[1]] + list(A_indices[1:])", "                indices = [fi_ci[1], A_indices[0]] + list(A_indices[1:])"))
+V("ge-shape-components-first", ["C04", "C08"], GE, "fire", (EGP, "        A_shape = [num_points, components] + self.ir.expression.tensor_shape", "        A_shape = [components, num_points] + self.ir.expression.tensor_shape"))
+V("ge-offset-dropped", ["C04"], GE, "fire", (EGP, "                    A_indices.append(block_size * index + offset)", "                    A_indices.append(block_size * index)"))
+V("ge-table-perm-only-restricted", ["C04"], GE + ["TABLE-INDEX"], "fire",
+  (SYM, "        if tabledata.is_permuted:\n            qp = self.quadrature_permutation[0]\n            if restriction == \"-\":", "        if tabledata.is_permuted and restriction in (\"+\", \"-\"):\n            qp = self.quadrature_permutation[0]\n            if restriction == \"-\":"))
+V("ge-assign-not-add", ["C04", "C07"], GE + ["ACCUMULATE-ONLY"], "fire", (EGP, "                body.append(L.AssignAdd(A[multi_index], Brhs))", "                body.append(L.Assign(A[multi_index], Brhs))"))
+V("ge-loop-bound-plus-one", ["C08"], GE, "fire", (EGP, "                body = L.ForRange(B_indices[i + 1], 0, blockdims[i], body=body)", "                body = L.ForRange(B_indices[i + 1], 0, blockdims[i] + 1, body=body)"))
+V("ge-benign-float-product-order", ["C04"], GE, "benign", (EGP, "                Brhs = L.float_product([f] + arg_factors)\n                indices = [A_indices[0], fi_ci[1]]", "                Brhs = L.float_product(arg_factors + [f])\n                indices = [A_indices[0], fi_ci[1]]"))
